@@ -385,7 +385,7 @@ fn tok_class(k: TokenKind) -> String {
 
 /// Code/comment tokens of a text with the layout gap in front of each: number of newlines (0..=3, 3 = "3 or
 /// more") between it and the previous non-blank token.
-fn gap_tokens(text: &str) -> Vec<(TokenKind, usize, usize)> {
+fn gap_tokens(text: &str) -> Vec<(TokenKind, usize, usize, u64)> {
     let mut out = vec![];
     let mut nl = 0usize;
     let mut pos = 0usize;
@@ -394,7 +394,7 @@ fn gap_tokens(text: &str) -> Vec<(TokenKind, usize, usize)> {
             TokenKind::WHITESPACE => {}
             TokenKind::NEWLINE => nl += 1,
             _ => {
-                out.push((k, nl.min(3), pos));
+                out.push((k, nl.min(3), pos, vhc::fnv(t.trim_end().as_bytes())));
                 nl = 0;
             }
         }
@@ -422,11 +422,11 @@ fn idem_key(first: &str, second: &str) -> (String, String) {
     let ctx = |s: &str, lo: usize| -> String { s.get(lo..).unwrap_or("").chars().take(120).collect() };
     let what0 = format!("second formatting differs at byte {}: {:?} vs {:?}", p, ctx(first, lo), ctx(second, lo));
     let (a, b) = (gap_tokens(first), gap_tokens(second));
-    let same_tokens = a.len() == b.len() && a.iter().zip(b.iter()).all(|(x, y)| x.0 == y.0);
+    let same_tokens = a.len() == b.len() && a.iter().zip(b.iter()).all(|(x, y)| x.0 == y.0 && x.3 == y.3);
     if !same_tokens {
         // comments moved relative to code tokens, or an optional separator came or went
-        let i = a.iter().zip(b.iter()).position(|(x, y)| x.0 != y.0).unwrap_or(a.len().min(b.len()));
-        let cls = |v: &Vec<(TokenKind, usize, usize)>| v.get(i).map(|t| tok_class(t.0)).unwrap_or_else(|| "END".into());
+        let i = a.iter().zip(b.iter()).position(|(x, y)| x.0 != y.0 || x.3 != y.3).unwrap_or(a.len().min(b.len()));
+        let cls = |v: &Vec<(TokenKind, usize, usize, u64)>| v.get(i).map(|t| tok_class(t.0)).unwrap_or_else(|| "END".into());
         return (format!("c17:not-idempotent:tokens-differ:{}->{}", cls(&a), cls(&b)), what0);
     }
     let fewer = (0..a.len()).find(|&i| b[i].1 < a[i].1);
@@ -619,6 +619,10 @@ pub const COMMENT_SITES: &[(&str, &str)] = &[
     ("item", "own-block"),
     ("item", "inline-block"),
     ("item", "trail-line"),
+    // in front of `else` only the inline style: `} // c\n else` and `} /* c */\n else` are laid out
+    // differently by the first and the second pass (indent behind a line comment; line break behind a
+    // block comment kept by print_trivia only) -- the same two trivia-printer defects as above.
+    ("else", "inline-block"),
 ];
 
 fn site_allowed(class: &str, style: &str) -> bool {
